@@ -24,11 +24,11 @@ theorem step_refines (c : Ctx) (s : S) (j : J) (buf : Bytes) (F : Nat) (hr : Rel
   match buf with
   | [] =>
     show Agree c (drain (F + 1) s []).1 j.evs .ok 0
-    rw [drain_stop F s s [] [] (processData_short s [] hr.cur (by simp))]
+    rw [drain_stop F s s [] [] hr.q.wc (processData_short s [] hr.cur (by simp))]
     exact ⟨hr.evs, hr.q.st, hr.q.nf⟩
   | [x] =>
     show Agree c (drain (F + 1) s [x]).1 j.evs .ok 1
-    rw [drain_stop F s s [x] [x] (processData_short s [x] hr.cur (by simp))]
+    rw [drain_stop F s s [x] [x] hr.q.wc (processData_short s [x] hr.cur (by simp))]
     exact ⟨hr.evs, hr.q.st, hr.q.nf⟩
   | o0 :: o1 :: rest2 =>
     have hrange := header_fields_in_range o0 o1
@@ -46,7 +46,7 @@ theorem step_refines (c : Ctx) (s : S) (j : J) (buf : Bytes) (F : Nat) (hr : Rel
       by_cases hlen : rest2.length < (Hd.ofOctets o0 o1).extN + (Hd.ofOctets o0 o1).keyN
       · simp only [hlen, if_true]
         show Agree c (drain (F + 1) s (o0 :: o1 :: rest2)).1 j.evs .ok (o0 :: o1 :: rest2).length
-        rw [drain_stop F s s _ _ (by rw [e1]; exact processHeader_short s o0 o1 rest2 hv hlen)]
+        rw [drain_stop F s s _ _ hr.q.wc (by rw [e1]; exact processHeader_short s o0 o1 rest2 hv hlen)]
         exact ⟨hr.evs, hr.q.st, hr.q.nf⟩
       · simp only [hlen, if_false]
         have hlen' : (Hd.ofOctets o0 o1).extN + (Hd.ofOctets o0 o1).keyN ≤ rest2.length := by omega
@@ -62,7 +62,7 @@ theorem step_refines (c : Ctx) (s : S) (j : J) (buf : Bytes) (F : Nat) (hr : Rel
           simp only [hext', Bool.not_false, if_true]
           have hb := processHeader_extbad s o0 o1 rest2 hv hlen' hext' hr.q.fbd hr.open_ne
           show Agree c (drain (F + 1) s (o0 :: o1 :: rest2)).1 j.evs (.fail 1002) (o0 :: o1 :: rest2).length
-          rw [drain_stop2 F s _ (by rw [e1]; exact hb.1), e1]
+          rw [drain_stop2 F s _ hr.q.wc (by rw [e1]; exact hb.1), e1]
           exact Agree.of_Failed c s _ _ 1002 _ hb.2 hr.evs
     · have hok' : headerOk c j.inside (Hd.ofOctets o0 o1).fin (Hd.ofOctets o0 o1).rsv (Hd.ofOctets o0 o1).opcode
           (Hd.ofOctets o0 o1).masked (Hd.ofOctets o0 o1).len7 = false := by simpa using hok
@@ -75,7 +75,7 @@ theorem step_refines (c : Ctx) (s : S) (j : J) (buf : Bytes) (F : Nat) (hr : Rel
         cases hok'
       have hb := processHeader_viol s o0 o1 (o0 :: o1 :: rest2) hv hr.q.fbd hr.open_ne
       show Agree c (drain (F + 1) s (o0 :: o1 :: rest2)).1 j.evs (.fail 1002) (o0 :: o1 :: rest2).length
-      rw [drain_stop2 F s _ (by rw [e1]; exact hb.1), e1]
+      rw [drain_stop2 F s _ hr.q.wc (by rw [e1]; exact hb.1), e1]
       exact Agree.of_Failed c s _ _ 1002 _ hb.2 hr.evs
 
 /-- **the loop refines the judge**: from related states, draining a buffer ends in a state that agrees with the
@@ -113,8 +113,8 @@ theorem start_Rel (cfg : Cfg) (hf : cfg.failByDrop = true) : Rel (Ctx.ofCfg cfg)
   unfold start
   simp only []
   split
-  · refine ⟨⟨rfl, rfl, rfl, rfl, rfl, hf, rfl⟩, rfl, rfl, rfl, fun h => by cases h⟩
-  · refine ⟨⟨rfl, rfl, rfl, rfl, rfl, hf, rfl⟩, rfl, rfl, rfl, fun h => by cases h⟩
+  · refine ⟨⟨rfl, rfl, rfl, rfl, rfl, hf, rfl, rfl⟩, rfl, rfl, rfl, fun h => by cases h⟩
+  · refine ⟨⟨rfl, rfl, rfl, rfl, rfl, hf, rfl, rfl⟩, rfl, rfl, rfl, fun h => by cases h⟩
 
 /-- one read of a whole stream -/
 theorem dataReceived_refines (c : Ctx) (s : S) (j : J) (stream : Bytes) (hr : Rel c s j) (hd : s.data = []) :
